@@ -521,6 +521,9 @@ func (x *c17Run) keys(seed int64, thorough bool) {
 		}
 		x.tick(true)
 	}
+	// signatures: the wire form is r and s as two 20-byte big-endian fields whatever their magnitude. The nonce is
+	// scripted and the digest solved for, so that s (and, by search over the nonce, r) takes every byte length 1 … 20
+	x.signatures(keys[0], thorough)
 	// several serialisations alive at the same time: what was handed out for one key must not change when another
 	// key is serialised or fingerprinted afterwards
 	{
@@ -842,4 +845,63 @@ func verifC17Run(r *verifReport) {
 	r.Nontrivial = x.nontr
 	r.sample(map[string]string{"structure": "dataMsg", "case": "flag=1 kid={0x80000000,2} y=2^1535 ctr=ffffffffffffffff enc=65536B keys=1"})
 	r.sample(map[string]string{"structure": "keyfile", "case": "3 accounts named \"a \" / \"a x\" / \"a xx\", protocol a.b_c/d+e@f:g, key with y-top-nibble-zero"})
+}
+
+func (x *c17Run) signatures(k *DSAPrivateKey, thorough bool) {
+	q, pp, g, xx := k.PrivateKey.Q, k.PrivateKey.P, k.PrivateKey.G, k.PrivateKey.X
+	nonces := 600
+	if thorough {
+		nonces = 6000
+	}
+	shortR, shortS := 0, 0
+	one := func(kv, sWant *big.Int) {
+		r := new(big.Int).Exp(g, kv, pp)
+		r.Mod(r, q)
+		if r.Sign() == 0 {
+			return
+		}
+		// h = s·k − x·r (mod q)
+		h := new(big.Int).Mul(sWant, kv)
+		h.Sub(h, new(big.Int).Mul(xx, r))
+		h.Mod(h, q)
+		hashed := h.FillBytes(make([]byte, 20))
+		d := verifNewDRBG(1, "c17sig")
+		d.Script = [][]byte{kv.FillBytes(make([]byte, 20))}
+		sig, err := k.Sign(d, hashed)
+		x.tick(true)
+		if err != nil || len(d.Script) != 0 {
+			return // the scripted nonce was not taken: nothing is claimed about this case
+		}
+		want := append(r.FillBytes(make([]byte, 20)), sWant.FillBytes(make([]byte, 20))...)
+		if len(r.Bytes()) < 20 {
+			shortR++
+		}
+		if len(sWant.Bytes()) < 20 {
+			shortS++
+		}
+		if !bytes.Equal(sig, want) {
+			x.bad("signature-wire", "Sign writes %x for r=%x s=%x (r of %d bytes, s of %d bytes); the wire form is the two values as 20-byte big-endian fields: %x", sig, r, sWant, len(r.Bytes()), len(sWant.Bytes()), want)
+			return
+		}
+		if rest, ok := k.PublicKey().Verify(hashed, append(append([]byte{}, sig...), 0xee)); !ok || len(rest) != 1 {
+			x.bad("signature-verify", "Verify refuses the signature Sign produced (r of %d bytes, s of %d bytes)", len(r.Bytes()), len(sWant.Bytes()))
+		}
+		if !dsa.Verify(&k.PrivateKey.PublicKey, hashed, new(big.Int).SetBytes(sig[:20]), new(big.Int).SetBytes(sig[20:])) {
+			x.bad("signature-wire", "the two 20-byte fields of Sign's output are not a valid DSA signature (r of %d bytes, s of %d bytes)", len(r.Bytes()), len(sWant.Bytes()))
+		}
+	}
+	for kn := 1; kn <= nonces; kn++ {
+		kv := new(big.Int).Exp(big.NewInt(3), big.NewInt(int64(kn)), q) // spread over the whole range
+		// s of every byte length for the first nonces, one full-width s for the others (they are there for r)
+		if kn <= 6 {
+			for l := 1; l <= 20; l++ {
+				sv := new(big.Int).Lsh(big.NewInt(int64(0x80+kn)), uint(8*(l-1)))
+				if sv.Cmp(q) < 0 {
+					one(kv, sv)
+				}
+			}
+		}
+		one(kv, new(big.Int).Sub(q, big.NewInt(int64(kn))))
+	}
+	x.r.Extra["signatures"] = fmt.Sprintf("%d nonces; signatures with r shorter than 20 bytes: %d, with s shorter than 20 bytes: %d", nonces, shortR, shortS)
 }
